@@ -26,6 +26,7 @@
 #include "helpers.h"
 #include "keyfile.h"
 
+#include <ctype.h>
 #include <errno.h>
 #include <float.h>
 #include <inttypes.h>
@@ -98,6 +99,12 @@ econf_err getUIntValueNum(econf_file key_file, size_t num, uint32_t *result) {
   char *endptr;
   if (key_file.file_entry[num].value == NULL)
     return ECONF_KEY_HAS_NULL_VALUE;
+  /* strtoul()/strtoull() silently negate: refuse a sign the type cannot hold */
+  const char *sign = key_file.file_entry[num].value;
+  while (isspace((unsigned char)*sign))
+    sign++;
+  if (*sign == '-')
+    return ECONF_VALUE_CONVERSION_ERROR;
   errno = 0;
   unsigned long value = strtoul(key_file.file_entry[num].value, &endptr, 0);
   if (endptr == key_file.file_entry[num].value || errno == ERANGE || (errno != 0 && value == 0) ||
@@ -111,6 +118,12 @@ econf_err getUInt64ValueNum(econf_file key_file, size_t num, uint64_t *result) {
   char *endptr;
   if (key_file.file_entry[num].value == NULL)
     return ECONF_KEY_HAS_NULL_VALUE;
+  /* strtoul()/strtoull() silently negate: refuse a sign the type cannot hold */
+  const char *sign = key_file.file_entry[num].value;
+  while (isspace((unsigned char)*sign))
+    sign++;
+  if (*sign == '-')
+    return ECONF_VALUE_CONVERSION_ERROR;
   errno = 0;
   *result = strtoull(key_file.file_entry[num].value, &endptr, 0);
   if (endptr == key_file.file_entry[num].value || errno == ERANGE || (errno != 0 && *result == 0))
